@@ -78,6 +78,7 @@ type cfg struct {
 	keys  [][]byte
 	vals  [][]byte
 	bulk  bool // the alphabet also has the bulk letter
+	pre   []op // start state: these operations are applied first (not counted in the depth)
 }
 
 type opKind int
@@ -93,6 +94,8 @@ const (
 	opReopen
 	opReopenDisk
 	opCopy
+	opReadAll // TryGet of every alphabet key as an operation of its own: a lookup resolves and re-links cached nodes, so WHEN it
+	// happens relative to Hash and Commit matters (the oracle's reads at the end of a history come after everything else)
 	opBulk // macro: one step inserts bulkN filler keys with bulkLen-byte values (more node data than one write batch holds)
 )
 
@@ -123,7 +126,7 @@ func (c *cfg) ops() []op {
 	for k := range c.keys {
 		out = append(out, op{opDelete, k, 0})
 	}
-	out = append(out, op{kind: opHash}, op{kind: opCommit}, op{kind: opFlush}, op{kind: opReopen}, op{kind: opReopenDisk}, op{kind: opCap}, op{kind: opDeref})
+	out = append(out, op{kind: opReadAll}, op{kind: opHash}, op{kind: opCommit}, op{kind: opFlush}, op{kind: opReopen}, op{kind: opReopenDisk}, op{kind: opCap}, op{kind: opDeref})
 	if c.sec {
 		out = append(out, op{kind: opCopy})
 	}
@@ -142,6 +145,8 @@ func (c *cfg) opName(o op) string {
 		return "Delete(" + kn(o.k) + ")"
 	case opHash:
 		return "Hash"
+	case opReadAll:
+		return "TryGet(every key)"
 	case opCommit:
 		return "Trie.Commit+Reference"
 	case opFlush:
@@ -242,6 +247,7 @@ type inst struct {
 	capped   bool
 	derefs   int
 	reopened int
+	read     bool // a lookup pass ran since the last write / commit / reopen
 	soft     [][2]string
 }
 
@@ -259,6 +265,10 @@ func newInst(c *cfg) *inst {
 func (in *inst) apply(o op) (bool, string, string) {
 	c := in.c
 	switch o.kind {
+	case opUpdate, opDelete, opBulk, opCommit, opReopen, opReopenDisk, opCopy:
+		in.read = false // the lookup pass is remembered until the next write, commit or change of trie object
+	}
+	switch o.kind {
 	case opUpdate:
 		if err := in.t.TryUpdate(c.keys[o.k], c.vals[o.v]); err != nil {
 			return true, "update-error", err.Error()
@@ -274,6 +284,14 @@ func (in *inst) apply(o op) (bool, string, string) {
 	case opHash:
 		in.t.Hash()
 		in.hashed = true
+	case opReadAll:
+		if in.read {
+			return false, "", ""
+		}
+		if k, w := checkReads(c, in.t, in.m, "read-operation"); k != "" {
+			return true, k, w
+		}
+		in.read = true
 	case opCommit:
 		root, err := commit(in.t)
 		if err != nil {
@@ -511,7 +529,7 @@ func (in *inst) key() string {
 	if nr > 2 {
 		nr = 2
 	}
-	return fmt.Sprintf("%s|%s|%s|g%d|h%v|c%d|r%d|cap%v|d%d|ro%d", cs(in.m), cs(in.com), cs(in.fl), in.commits, in.hashed, nc, nr, in.capped, in.derefs, in.reopened)
+	return fmt.Sprintf("%s|%s|%s|g%d|h%v|c%d|r%d|cap%v|d%d|ro%d|rd%v", cs(in.m), cs(in.com), cs(in.fl), in.commits, in.hashed, nc, nr, in.capped, in.derefs, in.reopened, in.read)
 }
 
 // contents reached, for the permutation and tamper phases
@@ -532,6 +550,14 @@ func runSearch(r *vk.Run, c *cfg, name string, depth, maxState int) vk.Result {
 					out = vk.Outcome{Err: "panic", What: fmt.Sprint(e)}
 				}
 			}()
+			for _, o := range c.pre {
+				if en, k, w := in.apply(o); !en || k != "" {
+					if len(hist) == 0 {
+						return vk.Outcome{Err: "start-state:" + k, What: fmt.Sprintf("start state: %s: enabled=%v %s", c.opName(o), en, w)}
+					}
+					return vk.Outcome{}
+				}
+			}
 			for i, oi := range hist {
 				en, k, w := in.apply(ops[oi])
 				if !en {
@@ -569,24 +595,36 @@ func main() {
 		c     cfg
 		depth int
 	}
+	// keys: 2 = "abc", 3 = "abd", 4 = "b"; values: 0 = "v", 1 = 40 bytes
+	reloaded2 := []op{{opUpdate, 2, 1}, {opUpdate, 3, 1}, {kind: opCommit}, {kind: opReopen}}
+	reloaded3 := []op{{opUpdate, 2, 1}, {opUpdate, 3, 1}, {opUpdate, 4, 0}, {kind: opCommit}, {kind: opReopen}}
 	var runs []run
 	if r.Quick() {
 		runs = []run{
-			{"plain/limit0", cfg{false, 0, baseKeys[:6], vals[:2], false}, 5},
-			{"plain/limit1", cfg{false, 1, baseKeys[:6], vals[:2], false}, 5},
-			{"secure/limit1", cfg{true, 1, baseKeys[:4], vals[:2], false}, 5},
-			{"plain/limit0/bulk", cfg{false, 0, baseKeys[:3], vals[:1], true}, 5},
-			{"secure/limit1/bulk", cfg{true, 1, baseKeys[:2], vals[:1], true}, 5},
+			{"plain/limit0", cfg{sec: false, limit: 0, keys: baseKeys[:6], vals: vals[:2], bulk: false}, 5},
+			{"plain/limit1", cfg{sec: false, limit: 1, keys: baseKeys[:6], vals: vals[:2], bulk: false}, 5},
+			{"secure/limit1", cfg{sec: true, limit: 1, keys: baseKeys[:4], vals: vals[:2], bulk: false}, 5},
+			{"plain/limit0/bulk", cfg{sec: false, limit: 0, keys: baseKeys[:3], vals: vals[:1], bulk: true}, 5},
+			{"secure/limit1/bulk", cfg{sec: true, limit: 1, keys: baseKeys[:2], vals: vals[:1], bulk: true}, 5},
+			// start states: a committed trie whose interior nodes are hash references after the reload (long values), so that
+			// the next write splits or collapses nodes AROUND unresolved references
+			{"plain/limit0/reloaded{abc,abd}", cfg{sec: false, limit: 0, keys: baseKeys[:6], vals: vals[:2], pre: reloaded2}, 4},
+			{"plain/limit1/reloaded{abc,abd,b}", cfg{sec: false, limit: 1, keys: baseKeys[:6], vals: vals[:2], pre: reloaded3}, 4},
 		}
 	} else {
 		runs = []run{
-			{"plain/limit0", cfg{false, 0, allKeys, vals, false}, 5},
-			{"plain/limit1", cfg{false, 1, allKeys, vals, false}, 5},
-			{"secure/limit0", cfg{true, 0, baseKeys, vals, false}, 5},
-			{"secure/limit1", cfg{true, 1, baseKeys, vals, false}, 5},
-			{"plain/limit0/bulk", cfg{false, 0, baseKeys[:4], vals[:2], true}, 6},
-			{"plain/limit1/bulk", cfg{false, 1, baseKeys[:4], vals[:2], true}, 6},
-			{"secure/limit1/bulk", cfg{true, 1, baseKeys[:3], vals[:1], true}, 6},
+			{"plain/limit0", cfg{sec: false, limit: 0, keys: allKeys, vals: vals, bulk: false}, 5},
+			{"plain/limit1", cfg{sec: false, limit: 1, keys: allKeys, vals: vals, bulk: false}, 5},
+			{"secure/limit0", cfg{sec: true, limit: 0, keys: baseKeys, vals: vals, bulk: false}, 5},
+			{"secure/limit1", cfg{sec: true, limit: 1, keys: baseKeys, vals: vals, bulk: false}, 5},
+			{"plain/limit0/bulk", cfg{sec: false, limit: 0, keys: baseKeys[:4], vals: vals[:2], bulk: true}, 6},
+			{"plain/limit1/bulk", cfg{sec: false, limit: 1, keys: baseKeys[:4], vals: vals[:2], bulk: true}, 6},
+			{"secure/limit1/bulk", cfg{sec: true, limit: 1, keys: baseKeys[:3], vals: vals[:1], bulk: true}, 6},
+			{"plain/limit0/reloaded{abc,abd}", cfg{sec: false, limit: 0, keys: baseKeys[:6], vals: vals[:2], pre: reloaded2}, 5},
+			{"plain/limit1/reloaded{abc,abd}", cfg{sec: false, limit: 1, keys: baseKeys[:6], vals: vals[:2], pre: reloaded2}, 5},
+			{"plain/limit0/reloaded{abc,abd,b}", cfg{sec: false, limit: 0, keys: baseKeys[:6], vals: vals[:2], pre: reloaded3}, 5},
+			{"plain/limit1/reloaded{abc,abd,b}", cfg{sec: false, limit: 1, keys: baseKeys[:6], vals: vals[:2], pre: reloaded3}, 5},
+			{"secure/limit1/reloaded{abc,abd,b}", cfg{sec: true, limit: 1, keys: baseKeys[:6], vals: vals[:2], pre: reloaded3}, 5},
 		}
 	}
 	states, trans := 0, 0
